@@ -254,7 +254,7 @@ theorem type_cell_narrow {g : Grid} (hu : g.size.cols ≤ 65535) (a : Attrs) (f 
 
 /-- **a wide cell**: typed on two plain cells with room for its width -/
 theorem type_cell_wide {g : Grid} (hu : g.size.cols ≤ 65535) (a : Attrs) (f w : Nat) (zs : List Nat) (row : Row)
-    (cell0 cell1 : Cell) (hw : (W f).getD 1 = w) (hw2 : 2 ≤ w) (hnc : ¬ (W f = none ∧ f < 256))
+    (cell0 cell1 : Cell) (hw : min ((W f).getD 1) 2 = w) (hw2 : 2 ≤ w) (hnc : ¬ (W f = none ∧ f < 256))
     (hz : ∀ z ∈ zs, W z = some 0)
     (hcol : g.pos.col + w ≤ g.size.cols) (hrow : g.rows[g.pos.row]? = some row)
     (hcell0 : row.cells[g.pos.col]? = some cell0) (h0w : cell0.wide = false) (h0c : cell0.cont = false)
@@ -305,7 +305,7 @@ variable (W : Nat → Option Nat)
 /-- a character of width ≥ 2 typed over the first half of a wide character: the old second half becomes a
 space, then the new second half — the two cells end up as after typing on blank cells -/
 theorem type_wide_over {g : Grid} (hu : g.size.cols ≤ 65535) (a : Attrs) (c w : Nat) (row : Row) (cell0 cell1 : Cell)
-    (hw : (W c).getD 1 = w) (hw2 : 2 ≤ w) (hnc : ¬ (W c = none ∧ c < 256))
+    (hw : min ((W c).getD 1) 2 = w) (hw2 : 2 ≤ w) (hnc : ¬ (W c = none ∧ c < 256))
     (hcol : g.pos.col + w ≤ g.size.cols) (hrow : g.rows[g.pos.row]? = some row)
     (hcell0 : row.cells[g.pos.col]? = some cell0) (h0w : cell0.wide = true) (h0c : cell0.cont = false)
     (hcell1 : row.cells[g.pos.col + 1]? = some cell1) (hW32 : W 32 = some 1) :
@@ -340,7 +340,7 @@ theorem view_contCell' (c : Cell) : view (contCell c) = ⟨0, false, true, Attrs
 
 /-- **a wide cell re-typed over itself** -/
 theorem type_cell_wide_over {g : Grid} (hu : g.size.cols ≤ 65535) (a : Attrs) (f w : Nat) (zs : List Nat) (row : Row)
-    (cell0 cell1 : Cell) (hw : (W f).getD 1 = w) (hw2 : 2 ≤ w) (hnc : ¬ (W f = none ∧ f < 256))
+    (cell0 cell1 : Cell) (hw : min ((W f).getD 1) 2 = w) (hw2 : 2 ≤ w) (hnc : ¬ (W f = none ∧ f < 256))
     (hz : ∀ z ∈ zs, W z = some 0)
     (hcol : g.pos.col + w ≤ g.size.cols) (hrow : g.rows[g.pos.row]? = some row)
     (hcell0 : row.cells[g.pos.col]? = some cell0) (h0w : cell0.wide = true) (h0c : cell0.cont = false)
